@@ -16,6 +16,7 @@ AddrsA0U0 == {A00, U10}
 AddrsA0U1 == {A00, U11}
 AddrsA1U1 == {A01, U11}
 AddrsU == {U10, U11}
+AddrsU0 == {U10}
 EmitEdge == PrintT(<<"VFEDGE", ToJson([s |-> st, op |-> op', t |-> st'])>>)
 EmitSeq == Sequential /\ EmitEdge
 MCInit == Init /\ PrintT(<<"VFINIT", ToJson(st)>>)
